@@ -666,6 +666,9 @@ func runDbl(mode string) (rec dblRec) {
 		var env *genEnv
 		got := []*blockchain.Block{}
 		pre := func(a *exh.Node) {
+			got = nil // a watchdog retry of gsx.RunSync runs pre and after again: only the last run counts
+			cons, g, env = nil, nil, nil
+			rec.Fail, rec.Forged1, rec.Forged2 = "", false, false // a panic of the first run is kept
 			var err error
 			env, err = envFor(a)
 			if err != nil {
@@ -717,6 +720,9 @@ func runDbl(mode string) (rec dblRec) {
 		obs := gsx.RunSync(gsx.SyncSpec{N: 4, Prefix: 4, Own: 2, Peer: 14, HCB: "honest", Corrupt: -1, ErrAfter: 1}, pre, after)
 		if obs.Fail != "" && rec.Fail == "" {
 			rec.Fail = "sync scenario: " + obs.Fail
+		}
+		if obs.Hang && rec.Fail == "" {
+			rec.Fail = "sync hang" // both the 12 s and the 45 s run hit the watchdog: the scenario was not exercised
 		}
 		if rec.Fail == "" && len(obs.After) >= len(obs.Before) {
 			rec.Fail = "the failing block sync did not lower the tip"
@@ -1072,6 +1078,7 @@ func runAcc(rec accRec) accRec {
 		tipBefore := n.Tip().Header
 		mhpBefore, _, _ := n.Heights()
 		vhashBefore := n.PostValidatorsHash()
+		var clockBefore, clockAfter uint32 // wall clock read immediately around the forge call that produced the block
 		for attempt := 0; attempt < 5 && cons.got == nil && rec.Panic == ""; attempt++ {
 			func() {
 				defer func() {
@@ -1079,7 +1086,9 @@ func runAcc(rec accRec) accRec {
 						rec.Panic = "forge: " + firstLine(r)
 					}
 				}()
+				clockBefore = uint32(time.Now().Unix())
 				g.VerifC15Forge()
+				clockAfter = uint32(time.Now().Unix())
 			}()
 			if cons.got == nil && rec.Panic == "" {
 				time.Sleep(1050 * time.Millisecond) // same slot as the tip / slot boundary: next second
@@ -1125,8 +1134,7 @@ func runAcc(rec accRec) accRec {
 		fields["maxHeightPrevoted"] = hd.MaxHeightPrevoted == mhpBefore
 		gen := n.GeneratorAt(hd.Timestamp)
 		fields["generator"] = gen != nil && bytes.Equal(gen.Addr, hd.GeneratorAddress)
-		nowSlot := n.Slot(uint32(time.Now().Unix()))
-		fields["timestampSlot"] = n.Slot(hd.Timestamp) > n.Slot(tipBefore.Timestamp) && n.Slot(hd.Timestamp) <= nowSlot && n.Slot(hd.Timestamp) >= nowSlot-1
+		fields["timestampSlot"] = n.Slot(hd.Timestamp) > n.Slot(tipBefore.Timestamp) && n.Slot(clockBefore) <= n.Slot(hd.Timestamp) && n.Slot(hd.Timestamp) <= n.Slot(clockAfter)
 		wantBits := 0
 		if len(hd.AggregateCommit.CertificateSignature) > 0 { // a non-empty commit: one bit per validator of the set
 			wantBits = (len(n.Vals) + 7) / 8
